@@ -5,14 +5,33 @@ from __future__ import annotations
 
 import ast
 
-from .pyast import Unrecognised, clean, cstr, is_logger_call, unparse
+from .pyast import Unrecognised, clean, is_logger_call, unparse
+from .pyast import cstr as _cstr
+
+
+def cstr(s: str) -> str:
+    """A Coq string term.  A newline / tab inside the literal is spliced in by its character code (string_scope: ++ is append)."""
+    if "\n" not in s and "\t" not in s:
+        return _cstr(s)
+    out, cur = [], ""
+    for ch in s:
+        if ch in "\n\t":
+            if cur:
+                out.append(_cstr(cur))
+            out.append(f'(String (Ascii.ascii_of_nat {ord(ch)}) "")')
+            cur = ""
+        else:
+            cur += ch
+    if cur:
+        out.append(_cstr(cur))
+    return out[0] if len(out) == 1 else "(" + " ++ ".join(out) + ")"
 
 
 class Ctx:
     def __init__(self, attr_vars=(), enum_prefixes=(), identity_calls=(), attr_targets=(), prims=None,
                  objects=False, consts=None, tables=(), procs=None, record_classes=(), str_consts=None, skip_stmts=(),
                  refs=None, ref_procs=None, record_ctors=None, message_vars=(), unmodelled=None, while_fuel=None,
-                 kw_ctors=None, setters=None):
+                 kw_ctors=None, setters=None, strings=False, hoist=False):
         self.attr_vars = set(attr_vars) | set(attr_targets)  # source texts treated as variables, e.g. "self.prefix"
         self.attr_targets = set(attr_targets)    # attributes the method may assign / append to, e.g. "self.negative_option_strings"
         self.enum_prefixes = tuple(enum_prefixes)  # "DashVariant." ... : enum members become string constants
@@ -38,6 +57,11 @@ class Ctx:
         self.kw_ctors = dict(kw_ctors or {})      # callee source -> (class name, parameter names in signature order): the call builds a new
                                                   # object that keeps exactly the arguments written at the call (positional ones named)
         self.setters = dict(setters or {})        # method name -> attribute: `x.m(v)` is `x.attr = v` (the caller pins the method's body)
+        self.strings = strings                    # character-level string code: strip / partition / isidentifier / split(sep, maxsplit=n) /
+                                                  # index / general slices / range / chained comparisons of names / x -= e
+        self.hoist = hoist                        # a call f(..) of a dumped procedure (c.procs) inside an expression: evaluated just before
+                                                  # the statement into a fresh variable (the procedures are pure functions of their arguments)
+        self.hoist_n = 0
         self.defaultdicts = set()
         self.setvars = set()
         self.views = {}                          # X -> Y after `X = vars(Y)`: X is the live dict view of the object Y (ONE variable)
@@ -189,7 +213,41 @@ def _is_none(n):
     return isinstance(n, ast.Constant) and n.value is None
 
 
+def expr7(n, c: Ctx, subst):
+    if isinstance(n, ast.Call) and isinstance(n.func, ast.Attribute):
+        m, obj, a, kw = n.func.attr, n.func.value, n.args, n.keywords
+        if m == "strip" and not a and not kw:
+            return f"(EStrip {expr(obj, c, subst)})"
+        if m == "isidentifier" and not a and not kw:
+            return f"(EIsIdent {expr(obj, c, subst)})"
+        if m == "partition" and len(a) == 1 and not kw and isinstance(a[0], ast.Constant) and isinstance(a[0].value, str) and a[0].value:
+            return f"(EPartition {expr(obj, c, subst)} {cstr(a[0].value)})"
+        if m == "split" and len(a) == 1 and len(kw) == 1 and kw[0].arg == "maxsplit" and isinstance(kw[0].value, ast.Constant) \
+                and isinstance(kw[0].value.value, int) and not isinstance(kw[0].value.value, bool) and 0 <= kw[0].value.value < 1000:
+            return f"(ESplitN {expr(obj, c, subst)} {expr(a[0], c, subst)} {kw[0].value.value})"
+        if m == "index" and len(a) == 1 and not kw:
+            return f"(EIndexOf {expr(obj, c, subst)} {expr(a[0], c, subst)})"
+    if isinstance(n, ast.Call) and isinstance(n.func, ast.Name) and n.func.id == "range" and len(n.args) == 2 and not n.keywords and "range" not in subst:
+        return f"(ERange {expr(n.args[0], c, subst)} {expr(n.args[1], c, subst)})"
+    if isinstance(n, ast.Subscript) and isinstance(n.slice, ast.Slice) and n.slice.step is None \
+            and not (n.slice.upper is None and isinstance(n.slice.lower, ast.Constant) and isinstance(n.slice.lower.value, int)
+                     and not isinstance(n.slice.lower.value, bool) and n.slice.lower.value >= 0):     # e[n:] with a literal n is ESliceFrom
+        lo = "None" if n.slice.lower is None else f"(Some {expr(n.slice.lower, c, subst)})"
+        hi = "None" if n.slice.upper is None else f"(Some {expr(n.slice.upper, c, subst)})"
+        return f"(ESlice {expr(n.value, c, subst)} {lo} {hi})"
+    if isinstance(n, ast.Compare) and len(n.ops) == 2 and isinstance(n.comparators[0], (ast.Name, ast.Constant)):
+        # a op b op c with a simple middle operand (it is evaluated once in Python, twice here)
+        one = ast.Compare(left=n.left, ops=[n.ops[0]], comparators=[n.comparators[0]])
+        two = ast.Compare(left=n.comparators[0], ops=[n.ops[1]], comparators=[n.comparators[1]])
+        return f"(EAnd {expr(one, c, subst)} {expr(two, c, subst)})"
+    return None
+
+
 def expr4(n, c: Ctx, subst, src):
+    if c.strings:
+        t = expr7(n, c, subst)
+        if t is not None:
+            return t
     """The forms that exist only with Ctx(objects=True); None = not one of them (the older forms are tried next)."""
     if src in c.attr_vars:
         return None
@@ -521,7 +579,7 @@ def stmt4(s, c: Ctx, subst):
     if isinstance(s, ast.Assign) and len(s.targets) == 1 and isinstance(s.targets[0], ast.Tuple) \
             and all(isinstance(e, ast.Name) and e.id not in subst for e in s.targets[0].elts) and len(s.targets[0].elts) >= 2:
         names = [e.id for e in s.targets[0].elts]
-        if len(set(names)) != len(names):
+        if len(set(names)) != len(names) and not (c.strings and len({x for x in names if x != "_"}) == len([x for x in names if x != "_"])):
             raise Unrecognised("unpacking into a repeated name")
         for x in names:
             c.note(x)
@@ -619,8 +677,86 @@ def block(body, c: Ctx, subst=None) -> list[str]:
     return out
 
 
+def _own_exprs(s):
+    """The expressions a statement evaluates itself (not those of the statements nested in it)."""
+    if isinstance(s, (ast.If,)):
+        return [("test", s.test)]
+    if isinstance(s, ast.For):
+        return [("iter", s.iter)]
+    if isinstance(s, (ast.Assign, ast.AugAssign, ast.Return, ast.Expr)) or (isinstance(s, ast.AnnAssign) and s.value is not None):
+        return [("value", s.value)] if s.value is not None else []
+    if isinstance(s, ast.Assert):
+        return [("test", s.test)]
+    return []
+
+
+def hoist_calls(s, c: Ctx, subst):
+    """Calls of dumped procedures inside the statement's own expressions: ([SCallRet ..], the statement with variables in their place)."""
+    import copy
+    if isinstance(s, ast.While) and any(isinstance(m, ast.Call) and isinstance(m.func, ast.Name) and m.func.id in c.procs for m in ast.walk(s.test)):
+        raise Unrecognised("a dumped procedure is called in the test of a while loop")
+    own = _own_exprs(s)
+    if not any(isinstance(m, ast.Call) and isinstance(m.func, ast.Name) and m.func.id in c.procs for _, e in own for m in ast.walk(e)):
+        return [], s
+    if isinstance(s, ast.Assign) and isinstance(s.value, ast.Call) and isinstance(s.value.func, ast.Name) and s.value.func.id in c.procs \
+            and len(s.targets) == 1 and isinstance(s.targets[0], ast.Name) \
+            and not any(isinstance(m, ast.Call) and isinstance(m.func, ast.Name) and m.func.id in c.procs for a in s.value.args for m in ast.walk(a)):
+        return [], s                                  # t = f(..): the direct form
+    s2 = copy.deepcopy(s)
+    pre = []
+
+    class H(ast.NodeTransformer):
+        def __init__(self):
+            self.cond = 0
+
+        def visit_BoolOp(self, node):
+            node.values[0] = self.visit(node.values[0])
+            self.cond += 1
+            node.values[1:] = [self.visit(v) for v in node.values[1:]]
+            self.cond -= 1
+            return node
+
+        def visit_IfExp(self, node):
+            node.test = self.visit(node.test)
+            self.cond += 1
+            node.body, node.orelse = self.visit(node.body), self.visit(node.orelse)
+            self.cond -= 1
+            return node
+
+        def visit_Lambda(self, node):
+            raise Unrecognised("lambda around a call of a dumped procedure")
+
+        def visit_ListComp(self, node):
+            if any(isinstance(m, ast.Call) and isinstance(m.func, ast.Name) and m.func.id in c.procs for m in ast.walk(node)):
+                raise Unrecognised("a dumped procedure is called inside a comprehension")
+            return node
+        visit_GeneratorExp = visit_SetComp = visit_DictComp = visit_ListComp
+
+        def visit_Call(self, node):
+            self.generic_visit(node)
+            if isinstance(node.func, ast.Name) and node.func.id in c.procs and node.func.id not in subst:
+                if self.cond and not all(isinstance(a, (ast.Name, ast.Constant)) for a in list(node.args) + [k.value for k in node.keywords]):
+                    raise Unrecognised("a conditionally evaluated call of a dumped procedure must have plain names as arguments")
+                c.hoist_n += 1
+                tmp = f"{node.func.id}#{c.hoist_n}"
+                c.note(tmp)
+                pre.append(proc_call(node, c, subst, ret=tmp))
+                return ast.copy_location(ast.Name(id=tmp, ctx=ast.Load()), node)
+            return node
+    h = H()
+    for field, _ in own:
+        setattr(s2, field, h.visit(getattr(s2, field)))
+    return pre, s2
+
+
 def stmt(s, c: Ctx, subst=None) -> list[str]:
     subst = subst or {}
+    if c.hoist:
+        pre, s2 = hoist_calls(s, c, subst)
+        if pre:
+            return pre + stmt(s2, c, subst)
+    if c.strings and isinstance(s, ast.AugAssign) and isinstance(s.op, ast.Sub) and isinstance(s.target, ast.Name) and s.target.id not in subst:
+        return [f"SAssign {cstr(s.target.id)} (ESub (EVar {cstr(s.target.id)}) {expr(s.value, c, subst)})"]
     if c.objects:
         r = stmt4(s, c, subst)
         if r is not None:
